@@ -535,10 +535,10 @@ def run(ctx):
         r = run_replay(ctx, binp)
         if r is not None:
             return r
-    msgs, spans = regen(ctx, ["beam", "fresnel"])
+    msgs, spans = regen(ctx, ["beam", "fresnel", "kinematics"])
     ctx.cov["translated_spans"] = {k: v for k, v in spans.items() if k.split("::")[0] in ("beam", "math", "utils", "crystal_setup")}
     for m in msgs:
-        ctx.proof_failures.append(("Gen/Beam.v", "translator", m))
+        ctx.proof_failures.append(("Gen/Kinematics.v" if m.rstrip().endswith("[generator kinematics]") else "Gen/Beam.v", "translator", m))
     proved = (not msgs) and prove(ctx, "C13", extra_targets=["Proofs/C13_case.vo", "Proofs/C04_cases.vo"])
     okf, _, _ = coq_build(ctx, ["Findings/C13_snell_near_axis.vo"])
     if not okf:
@@ -582,6 +582,11 @@ def run(ctx):
                        "plus set-ups whose refracted beam runs along an optic axis (crystal tilt = internal angle +- {0, 1e-9 .. 1e-3}, azimuth pi); "
                        "unit conversions log-uniform; distinct = distinct (history id, step index, op, argument bits) / input bits")
     ctx.cov["clauses"] = {
+        "kinematic accessors (generated, Gen/Kinematics.v): n_g = n/(1 + (lambda/n) D), v_g n_g = c, transit time (L/2)/|cos theta|/v_g, positivity, "
+        "c/4 < v_p < c in the built-in crystals, finite-difference dispersion within M h^2/6 of the derivative":
+            "proved (C13_group_index_form, C13_group_velocity_times_group_index(_poled), C13_average_transit_time(_unpoled), C13_kinematics_positive, "
+            "C13_phase_velocity_builtin, C13_dispersion_finite_difference_partial; C13_group_velocity_is_first_order records that the code's group "
+            "velocity is the first-order form of c/(n - lambda n')); generated = implementation by the kinematics stage of ./check C06 and C09",
         "direction = (sin th cos ph, sin th sin ph, cos th), unit, after any setter history": "proved (induction over all op lists, generated setters); binary64 measured 1e-15",
         "azimuth in [0, 2 pi], polar angle in (-pi, pi]": "proved ([0, 2 pi) over R; binary64 may return exactly 2 pi — measured)",
         "congruent to the last requested values mod 2 pi": "proved; binary64 measured with tolerance 1e-15 + 1e-16 |x| (reduction modulo the double nearest 2 pi)",
